@@ -68,9 +68,11 @@ class HarnessApp(Application):
         run.handler_leave(c)
         return 200, {"Content-Type": "text/plain"}, "done-%d" % c
 
-    do_PUT = _blocking
-    do_GET = _blocking
-    do_POST = _blocking
+
+# EVERY method the application dispatches gets the blocking/recording handler
+VERBS = sorted(n[3:] for n in dir(Application) if n.startswith("do_"))
+for _v in VERBS:
+    setattr(HarnessApp, "do_" + _v, HarnessApp._blocking)
 
 
 GATE_CALLS = []
@@ -151,7 +153,7 @@ def build_request(c, m):
     "auth": "anon|ok|fail", "cl": str|None}.  No body bytes are ever sent (nothing reads them)."""
     if m.get("garbage"):
         return b"NONSENSE\r\n\r\n"
-    method = "PUT" if m["method"] else "FROB"
+    method = (m.get("verb") or "PUT") if m["method"] else "FROB"
     path = {"none": "/c%d" % c, "redirect": "/x/.well-known/caldav", "notfound": "/.well-known/foo"}[m["wk"]]
     lines = ["%s %s HTTP/1.1" % (method, path), "Host: localhost", "X-Conn: %d" % c]
     if m["pref"] == "badheader":
@@ -165,8 +167,8 @@ def build_request(c, m):
     return ("\r\n".join(lines) + "\r\n\r\n").encode("latin-1")
 
 
-def parse_response(data):
-    """-> (status or 0, complete: bool)"""
+def parse_response(data, head=False):
+    """-> (status or 0, complete: bool); head: answer to a HEAD request (Content-Length without body)"""
     if not data:
         return 0, False
     if not data.startswith(b"HTTP/"):
@@ -189,10 +191,14 @@ def parse_response(data):
                 clen = int(v.strip())
             except ValueError:
                 pass
-    return status, (clen is None or len(body) == clen)
+    return status, (clen is None or len(body) == clen or (head and not body))
 
 
 # ------------------------------------------------------------------------------------------ clients
+def is_head(cl):
+    return bool(cl.sent) and not cl.sent.get("garbage") and cl.sent.get("method") and cl.sent.get("verb") == "HEAD"
+
+
 class Client:
     def __init__(self, c, lis):
         self.c, self.lis = c, lis
@@ -363,6 +369,10 @@ class Run:
             "storage": {"filesystem_folder": os.path.join(self.folder, "coll")},
             "auth": {"type": "htpasswd", "htpasswd_filename": ht, "htpasswd_encryption": "plain", "delay": "0"},
             "logging": {"level": "critical"}}, "verif", privileged=True)
+        if self.cfg.get("ssl"):
+            static = os.path.join(os.path.dirname(radicale.__file__), "tests", "static")
+            conf.update({"server": {"ssl": "True", "certificate": os.path.join(static, "cert.pem"),
+                                    "key": os.path.join(static, "key.pem")}}, "verif", privileged=True)
         self.shutdown_in, self.shutdown_out = socket.socketpair()
 
         def target():
@@ -516,7 +526,7 @@ class Run:
             self.emit("TRead", [cl.c], [["OEofSeen", cl.c]])
             return
         self.pump(cl)
-        st, complete = parse_response(cl.data)
+        st, complete = parse_response(cl.data, is_head(cl))
         if cl.entered:
             # the worker socket was closed although the handler has not been released
             self.emit("TRead", [cl.c], [["OEnter", cl.c]])
@@ -537,7 +547,7 @@ class Run:
             raise Inconclusive("stuck")
         cl.done = True
         self.pump(cl)
-        st, complete = parse_response(cl.data)
+        st, complete = parse_response(cl.data, is_head(cl))
         self.stats["handled"] += 1
         self.emit("ERelease", [c], [["OHandlerDone", c]])
         if st != 200 or not complete or not cl.eof:
@@ -693,7 +703,7 @@ class Run:
             cl = str(rng.choice([ml + 1, ml + 1, ml + 2, 2 * ml + 7, 10 ** 12, 1]))
         else:
             cl = rng.choice(["-1", "-%d" % (ml + 5), "abc", "1_0", " 7", "+%d" % (ml + 1), "0x10", "", "00%d" % (ml + 1)])
-        m = {"pref": "ok", "method": True, "wk": "none", "auth": "anon", "cl": cl}
+        m = {"pref": "ok", "method": True, "wk": "none", "auth": "anon", "cl": cl, "verb": rng.choice(VERBS)}
         r = rng.random()
         if r < 0.08:
             m["pref"] = "badheader"
@@ -857,7 +867,7 @@ class Run:
                         self.fail.append(dict(what="handler invoked for a request whose declared length exceeds max_content_length",
                                               conn=cl.c, declared=a[1], max_content_length=ml))
                     plain = cl.sent["pref"] == "ok" and cl.sent["method"] and cl.sent["wk"] == "none"
-                    st, _ = parse_response(cl.data)
+                    st, _ = parse_response(cl.data, is_head(cl))
                     if plain and cl.done and st != 413:
                         self.fail.append(dict(what="oversized request not answered with 413", conn=cl.c, status=st,
                                               declared=a[1], max_content_length=ml))
@@ -1003,7 +1013,7 @@ def run_free(job):
         for c, cl in run.clients.items():
             if not cl.accepted:
                 continue
-            st, complete = parse_response(cl.data)
+            st, complete = parse_response(cl.data, is_head(cl))
             if c in run.handler_calls and (st != 200 or not complete):
                 run.fail.append(dict(what="request in flight did not get a complete response", conn=c, status=st,
                                      complete=complete, free=True))
@@ -1056,7 +1066,7 @@ def run_gate(job):
                 apps[key] = HarnessApp(conf)
             app = apps[key]
             m = case["m"]
-            env = {"REQUEST_METHOD": "PUT" if m["method"] else "FROB",
+            env = {"REQUEST_METHOD": (m.get("verb") or "PUT") if m["method"] else "FROB",
                    "PATH_INFO": {"none": "/c1", "redirect": "/x/.well-known/carddav/", "notfound": "/a/.well-known/x"}[m["wk"]],
                    "HTTP_X_CONN": "1", "wsgi.errors": io.StringIO(), "wsgi.input": io.BytesIO(b"")}
             if m["pref"] == "badheader":
@@ -1154,6 +1164,277 @@ def run_neglen(job):
     return out
 
 
+# ------------------------------------------------------------------------------------------ real handlers x size check
+class CountingInput(io.BytesIO):
+    """wsgi.input that counts what is read from it"""
+
+    def __init__(self, data):
+        super().__init__(data)
+        self.nread = 0
+
+    def read(self, *a):
+        b = super().read(*a)
+        self.nread += len(b)
+        return b
+
+    def readline(self, *a):
+        b = super().readline(*a)
+        self.nread += len(b)
+        return b
+
+
+def store_snapshot(folder):
+    snap = {}
+    for root, dirs, files in os.walk(folder):
+        dirs[:] = [d for d in dirs if d != ".Radicale.cache"]
+        rel = os.path.relpath(root, folder)
+        snap[rel + "/"] = None
+        for f in files:
+            if f.startswith(".Radicale.lock"):
+                continue
+            with open(os.path.join(root, f), "rb") as fh:
+                snap[os.path.join(rel, f)] = fh.read()
+    return snap
+
+
+MKCAL = (b'<?xml version="1.0" encoding="UTF-8" ?><C:mkcalendar xmlns:D="DAV:" xmlns:C="urn:ietf:params:xml:ns:caldav">'
+         b'<D:set><D:prop><D:displayname>x</D:displayname></D:prop></D:set></C:mkcalendar>')
+MKCOL = (b'<?xml version="1.0" encoding="UTF-8" ?><D:mkcol xmlns:D="DAV:"><D:set><D:prop><D:displayname>y</D:displayname>'
+         b'</D:prop></D:set></D:mkcol>')
+EVENT = (b"BEGIN:VCALENDAR\r\nVERSION:2.0\r\nPRODID:-//x//EN\r\nBEGIN:VEVENT\r\nUID:%s\r\nDTSTART:20250101T100000Z\r\n"
+         b"DTEND:20250101T110000Z\r\nSUMMARY:s\r\nEND:VEVENT\r\nEND:VCALENDAR\r\n")
+PROPPATCH = (b'<?xml version="1.0"?><D:propertyupdate xmlns:D="DAV:"><D:set><D:prop><D:displayname>z</D:displayname></D:prop>'
+             b'</D:set></D:propertyupdate>')
+PROPFIND = b'<?xml version="1.0"?><D:propfind xmlns:D="DAV:"><D:allprop/></D:propfind>'
+REPORT = (b'<?xml version="1.0"?><C:calendar-query xmlns:D="DAV:" xmlns:C="urn:ietf:params:xml:ns:caldav"><D:prop><D:getetag/>'
+          b'</D:prop><C:filter><C:comp-filter name="VCALENDAR"/></C:filter></C:calendar-query>')
+
+
+def real_requests():
+    """one mutating / reading request per method the REAL application dispatches: (method, path, body, extra env)"""
+    return [
+        ("PUT", "/u/cal/new.ics", EVENT % b"new", {"CONTENT_TYPE": "text/calendar"}),
+        ("MKCALENDAR", "/u/newcal/", MKCAL, {}),
+        ("MKCOL", "/u/newcol/", MKCOL, {}),
+        ("MOVE", "/u/cal/e1.ics", b"", {"HTTP_DESTINATION": "http://127.0.0.1/u/cal/moved.ics", "HTTP_HOST": "127.0.0.1"}),
+        ("DELETE", "/u/cal/e1.ics", b"", {}),
+        ("PROPPATCH", "/u/cal/", PROPPATCH, {}),
+        ("PROPFIND", "/u/cal/", PROPFIND, {"HTTP_DEPTH": "1"}),
+        ("REPORT", "/u/cal/", REPORT, {}),
+        ("GET", "/u/cal/e1.ics", b"", {}),
+        ("HEAD", "/u/cal/e1.ics", b"", {}),
+        ("OPTIONS", "/u/cal/", b"", {}),
+        ("POST", "/u/cal/", b"x", {}),
+        ("FROB", "/u/cal/", b"", {}),
+    ]
+
+
+def run_realgate(job):
+    """The REAL Application (real do_* handlers) with _internal_server = True and a small max_content_length:
+    every dispatched method x declared Content-Length.  Reported per case: status, bytes read from wsgi.input,
+    whether the store changed.  The same requests with an honest length under a large limit show that they are
+    not trivially inert."""
+    from radicale import httputils
+    out = []
+    ml = job["max_len"]
+    known = set(VERBS)
+    missing = sorted(known - {r[0] for r in real_requests()})
+    for big_limit in (False, True):
+        folder = tempfile.mkdtemp(prefix="rv-c20r-")
+        try:
+            conf = config.load()
+            conf.update({"server": {"max_content_length": str(10 ** 8 if big_limit else ml), "_internal_server": "True"},
+                         "storage": {"filesystem_folder": os.path.join(folder, "coll")},
+                         "auth": {"type": "none"}, "logging": {"level": "critical"}}, "verif", privileged=True)
+            app = Application(conf)
+            reads = []
+            orig_read = httputils.read_raw_request_body
+
+            def call(method, path, body, extra, declared):
+                env = {"REQUEST_METHOD": method, "PATH_INFO": path, "wsgi.errors": io.StringIO(),
+                       "HTTP_AUTHORIZATION": "Basic " + base64.b64encode(b"u:p").decode()}
+                env.update(extra)
+                inp = CountingInput(body + b" " * 4096)
+                env["wsgi.input"] = inp
+                if declared is not None:
+                    env["CONTENT_LENGTH"] = declared
+                wsgiref.util.setup_testing_defaults(env)
+                env["SCRIPT_NAME"] = ""
+                got = {}
+
+                def start_response(status_, headers_):
+                    got["status"] = int(status_.split()[0])
+                try:
+                    list(app(env, start_response))
+                except Exception as e:
+                    got["status"] = -1
+                    got["error"] = repr(e)
+                return got.get("status", -1), inp.nread
+
+            def prepare():
+                shutil.rmtree(os.path.join(folder, "coll", "collection-root"), ignore_errors=True)
+                call("MKCALENDAR", "/u/cal/", MKCAL, {}, str(len(MKCAL)) if big_limit or len(MKCAL) <= ml else None)
+                call("PUT", "/u/cal/e1.ics", EVENT % b"e1", {"CONTENT_TYPE": "text/calendar"},
+                     str(len(EVENT % b"e1")) if big_limit or len(EVENT % b"e1") <= ml else None)
+            if big_limit:
+                # non-vacuity: with an honest length and a large limit the requests do what they say
+                for (method, path, body, extra) in real_requests():
+                    prepare()
+                    before = store_snapshot(folder)
+                    st, nread = call(method, path, body, extra, str(len(body)) if body else None)
+                    out.append(dict(method=method, declared="honest", limit="large", status=st, nread=nread,
+                                    store_changed=store_snapshot(folder) != before))
+                continue
+            # the store is prepared under a large limit, then the small limit applies
+            conf_big = config.load()
+            conf_big.update({"server": {"max_content_length": str(10 ** 8), "_internal_server": "True"},
+                             "storage": {"filesystem_folder": os.path.join(folder, "coll")},
+                             "auth": {"type": "none"}, "logging": {"level": "critical"}}, "verif", privileged=True)
+            app_small, app_big = app, Application(conf_big)
+            for (method, path, body, extra) in real_requests():
+                for declared in job["declared"]:
+                    app = app_big
+                    shutil.rmtree(os.path.join(folder, "coll", "collection-root"), ignore_errors=True)
+                    call("MKCALENDAR", "/u/cal/", MKCAL, {}, str(len(MKCAL)))
+                    call("PUT", "/u/cal/e1.ics", EVENT % b"e1", {"CONTENT_TYPE": "text/calendar"}, str(len(EVENT % b"e1")))
+                    before = store_snapshot(folder)
+                    app = app_small
+                    st, nread = call(method, path, body, extra, declared)
+                    out.append(dict(method=method, declared=declared, limit=ml, status=st, nread=nread,
+                                    store_changed=store_snapshot(folder) != before, cl_abs=abstract_cl(declared)))
+        finally:
+            shutil.rmtree(folder, ignore_errors=True)
+    return dict(results=out, verbs=VERBS, verbs_without_request=missing)
+
+
+# ------------------------------------------------------------------------------------------ TLS: silent before / after the handshake
+def run_ssl(job):
+    """ssl = True, free-running: a TCP client that never starts the TLS handshake must be dropped by the socket
+    timeout (it holds the only slot), a real client queued behind it must then be served, a client that goes silent
+    AFTER the handshake must be dropped too, and a shutdown with a silent TCP client in flight must return."""
+    global FAILED_SCRIPTS
+    import ssl as ssl_mod
+    cfg = dict(job["cfg"])
+    cfg["ssl"] = True
+    T = float(cfg["timeout"])
+    MARGIN = 15.0
+    run = Run(cfg, False, random.Random(job.get("seed", 0)))
+    res = dict(cfg=cfg, inconclusive=None, ssl=True, seed=job.get("seed", 0))
+    steps = []
+    ctxc = ssl_mod.create_default_context()
+    ctxc.check_hostname = False
+    ctxc.verify_mode = ssl_mod.CERT_NONE
+
+    def tcp_client(c):
+        cl = Client(c, 0)
+        s_ = socket.socket(socket.AF_INET, socket.SOCK_STREAM)
+        s_.settimeout(DEADLINE + T + MARGIN)
+        s_.bind(("127.0.0.1", 0))
+        with run.lock:
+            run.clients[c] = cl
+            run.by_port[s_.getsockname()[1]] = c
+        s_.connect(("127.0.0.1", run.ports[0]))
+        cl.sock = s_
+        return cl
+
+    def dropped(cl, what):
+        """the silent client must see the connection closed, not before the timeout"""
+        if not run.wait_for(lambda: cl.accepted, deadline=T + MARGIN + DEADLINE):
+            run.fail.append(dict(what="ssl: %s is never accepted" % what, conn=cl.c))
+            return False
+        if not cl.pump(T + MARGIN):
+            run.fail.append(dict(what="ssl: %s is never dropped (timeout %.1fs): it keeps its slot" % (what, T), conn=cl.c))
+            return False
+        steps.append(dict(client=what, dropped_after=round(cl.t_eof - cl.t_accept, 3)))
+        if cl.t_eof < cl.t_accept + T - 0.05:
+            run.fail.append(dict(what="ssl: %s dropped before the timeout" % what, after=cl.t_eof - cl.t_accept, timeout=T))
+        return True
+
+    try:
+        run.start()
+        for c in range(8):
+            run.release_event(c).set()          # handlers return at once
+        # A: TCP connect, no handshake.  B: a real client queued behind it.
+        a = tcp_client(0)
+        run.wait_for(lambda: a.accepted)
+        bres = {}
+
+        def real_client(c, out):
+            try:
+                cl = tcp_client(c)
+                tls = ctxc.wrap_socket(cl.sock, server_hostname="localhost")
+                out["handshake"] = time.monotonic()
+                tls.sendall(("GET /c%d HTTP/1.1\r\nHost: localhost\r\nX-Conn: %d\r\n\r\n" % (c, c)).encode())
+                data = b""
+                while True:
+                    chunk = tls.recv(65536)
+                    if not chunk:
+                        break
+                    data += chunk
+                out["status"], out["complete"] = parse_response(data)
+            except Exception as e:
+                out["error"] = repr(e)
+        tb = threading.Thread(target=real_client, args=(1, bres), daemon=True)
+        tb.start()
+        ok = dropped(a, "TCP client that never starts the TLS handshake")
+        tb.join((T + MARGIN + DEADLINE) if ok else 2.0)
+        steps.append(dict(client="real TLS client queued behind it", result=dict(bres)))
+        if ok and (tb.is_alive() or bres.get("status") != 200 or not bres.get("complete")):
+            run.fail.append(dict(what="ssl: real client queued behind the silent one is not served", result=dict(bres)))
+        if not run.fail:
+            # C: handshake, then silence
+            cres = {}
+            cl_c = tcp_client(2)
+            try:
+                tls_c = ctxc.wrap_socket(cl_c.sock, server_hostname="localhost")
+                cl_c.sock = tls_c
+                t_hs = time.monotonic()
+                tls_c.settimeout(T + MARGIN)
+                try:
+                    b = tls_c.recv(100)
+                except (ssl_mod.SSLError, OSError) as e:
+                    b = b"" if not isinstance(e, socket.timeout) else None
+                if b is None:
+                    run.fail.append(dict(what="ssl: client silent after the handshake is never dropped (timeout %.1fs)" % T))
+                else:
+                    steps.append(dict(client="silent after handshake", dropped_after=round(time.monotonic() - t_hs, 3)))
+                    if time.monotonic() - cl_c.t_accept < T - 0.05:
+                        run.fail.append(dict(what="ssl: client silent after the handshake dropped before the timeout"))
+            except Exception as e:
+                run.fail.append(dict(what="ssl: handshake of a well-behaved client failed", error=repr(e)))
+        # D: shutdown with a silent TCP client in flight
+        if not run.fail:
+            e_ = tcp_client(3)
+            run.wait_for(lambda: e_.accepted)
+            t_stop = time.monotonic()
+            run.stopped = True
+            run.shutdown_in.close()
+            if not run.wait_for(lambda: run.t_return is not None, deadline=T + MARGIN):
+                run.fail.append(dict(what="ssl: serve() does not return after shutdown: a TCP client that never starts the "
+                                          "handshake blocks it"))
+            else:
+                steps.append(dict(shutdown_returned_after=round(run.t_return - t_stop, 3)))
+                if run.t_closing.get(3) is None or run.t_closing[3] > run.t_return:
+                    run.fail.append(dict(what="serve() returned while accepted connections were still being processed", conns=[3]))
+        mc = cfg["max_conn"]
+        if mc > 0 and run.max_worker_sockets > mc:
+            run.fail.append(dict(what="more connections in flight than max_connections", worker_sockets=run.max_worker_sockets))
+    except Inconclusive as e:
+        res["inconclusive"] = str(e)
+    except Exception:
+        res["inconclusive"] = "driver error: " + traceback.format_exc()
+        res["driver_error"] = True
+    finally:
+        try:
+            run.cleanup()
+        except Exception:
+            pass
+    res.update(fail=run.fail, notes=run.notes, steps=steps, n_accepts=len(run.accept_log), serve_exc=run.serve_exc)
+    if run.fail:
+        FAILED_SCRIPTS += 1
+    return res
+
+
 def main():
     jobs = json.load(open(sys.argv[1]))
     out = []
@@ -1163,6 +1444,10 @@ def main():
                 out.append(run_script(job))
             elif job["kind"] == "neglen":
                 out.append(run_neglen(job))
+            elif job["kind"] == "realgate":
+                out.append(run_realgate(job))
+            elif job["kind"] == "ssl":
+                out.append(run_ssl(job))
             else:
                 out.append(run_gate(job))
         except BaseException:
